@@ -2,7 +2,7 @@
 From Coq Require Import NArith ZArith String List Bool.
 Import ListNotations.
 From Fit Require Import Model.Profile Model.ProfileRows Model.ProfileCheck Proofs.ProfileCheckProofs.
-From Fit Require gen.ProfileSpec gen.Typedef.
+From Fit Require gen.ProfileSpec gen.Typedef gen.TypedefRun.
 Open Scope N_scope.
 
 Lemma typedefs_ok : typedefs_ok_b Typedef.typedefs = true.
@@ -16,4 +16,9 @@ Lemma typedefs_match_sheet_b_true :
 Proof. vm_compute. reflexivity. Qed.
 
 Lemma typedefs_count : List.length Typedef.typedefs = N.to_nat Typedef.n_typedefs.
+Proof. vm_compute. reflexivity. Qed.
+
+(* the translation of profile/typedef/*_gen.go agrees with the running package: for every element c of every ListX():
+   (value, c.String(), XFromString(c.String())) as computed from the translated case lists = as returned by the code *)
+Lemma typedef_run_agrees : typedef_run_agrees_b Typedef.typedefs TypedefRun.runtime_typedefs = true.
 Proof. vm_compute. reflexivity. Qed.
